@@ -493,6 +493,14 @@ def rule_first_item(ctx, facts, rule):
                     t = hb.term(v[2])
                     idx0 = idx0 or (len(t["args"]) > 1 and t["args"][1]["k"] == "const" and t["args"][1].get("v") == 0)
         other = [c for c in calls if re.search(r"Iterator>?::(last|nth|rev|skip|max\w*|min\w*)$|slice::<impl \[T\]>::last$|Vec::<T, A>::(pop|last)$", c)]
+        # a slice pattern `[first, ..]`: the element is the constant-index projection [0] (from the front) of the token
+        pats = [pl for g in bodies for blk in g.blocks if not blk["cleanup"] for st in blk["stmts"] if st["k"] == "assign"
+                for pl in ([st["rv"]["place"]] if st["rv"]["k"] == "ref" else [st["rv"]["op"]] if st["rv"]["k"] == "use" and st["rv"]["op"]["k"] in ("copy", "move") else [])
+                if any(re.fullmatch(r"\[-?\d+( of \d+)?\]", str(e)) for e in pl["p"])]
+        if pats:
+            idx0 = idx0 or all(all(str(e) in ("[0]",) or not re.fullmatch(r"\[-?\d+( of \d+)?\]", str(e)) for e in pl["p"]) for pl in pats)
+            if not all(all(str(e) in ("[0]",) or not re.fullmatch(r"\[-?\d+( of \d+)?\]", str(e)) for e in pl["p"]) for pl in pats):
+                other = other + ["constant index other than [0]"]
         ctx.check((first or idx0) and not other, rule, p, host.loc(b),
                   "for a span with several parents the first token item is used (accepted: Iterator::next on a fresh iterator, "
                   "slice::first, index 0)", "via %s" % sorted(c.rsplit('::', 1)[-1] for c in calls)[:8],
